@@ -271,7 +271,7 @@ func (w *scWorld) observe(ok bool) scObs {
 			so.ErrKind = 1
 		case strings.Contains(s.LastError, "scripted connection failure"):
 			so.ErrKind = 2
-		case strings.Contains(s.LastError, "HTTP status"):
+		case strings.Contains(s.LastError, "500"): // the scripted status code, however the message is worded
 			so.ErrKind = 3
 		case strings.Contains(s.LastError, "scripted body failure"):
 			so.ErrKind = 4
